@@ -36,6 +36,7 @@ Readable == IF w - r >= cap THEN cap - 1 ELSE w - r
 
 Write(n) ==
   LET k == Min(n, Avail) IN
+  /\ Avail >= 0              \* (the test-only Write of the package is never used on a ring its real producer has filled to the last byte)
   /\ acc + k <= MaxTotal
   /\ mem' = [i \in 0..(cap-1) |->
                IF \E j \in 0..(k-1) : (w + j) % cap = i
@@ -44,6 +45,20 @@ Write(n) ==
   /\ bad' = (IF k > n \/ k < 0 THEN {"C18_accept"} ELSE {})
             \cup (IF k > cap - (acc - nxt) THEN {"C18_overwrite"} ELSE {})
   /\ act' = [op |-> "Write", n |-> n, ret |-> k]
+  /\ UNCHANGED <<r, nxt>>
+
+\* The producer of the real system is another process (the DMA engine's driver) that writes into the mapped region and
+\* publishes writePointer itself; unlike Write above it may use the last byte too, so the ring can be completely full
+\* (w - r = cap), a state Read and BytesReadable provide for.
+XWrite(n) ==
+  LET k == Min(n, cap - (w - r)) IN
+  /\ acc + k <= MaxTotal
+  /\ mem' = [i \in 0..(cap-1) |->
+               IF \E j \in 0..(k-1) : (w + j) % cap = i
+               THEN CHOOSE g \in w..(w+k-1) : g % cap = i ELSE mem[i]]
+  /\ w' = w + k /\ acc' = acc + k
+  /\ bad' = {}
+  /\ act' = [op |-> "XWrite", n |-> n, ret |-> k]
   /\ UNCHANGED <<r, nxt>>
 
 \* the bytes a Read(size) returns, as a sequence of global indices
@@ -97,6 +112,7 @@ Recreate(c) ==
   /\ act' = [op |-> "Recreate", cap |-> c]
 
 Ops == \/ \E n \in 0..MaxN : Write(n)
+       \/ \E n \in 1..MaxN : XWrite(n)
        \/ \E n \in 0..MaxN : Read(n)
        \/ ReadAll
        \/ \E c \in 1..MaxN : ReadMultipleOf(c)
@@ -109,7 +125,7 @@ Spec == Init /\ [][Next]_vars
 \* ---------------------------------------------------------------- properties
 NoBad == bad = {}
 \* structural invariants of a correct ring: never more than cap-1 unread bytes; memory holds what was accepted
-Bounded == /\ 0 <= w - r /\ w - r <= cap - 1
+Bounded == /\ 0 <= w - r /\ w - r <= cap
 Holds   == \A g \in r..(w-1) : mem[g % cap] = g
 Ghost   == /\ acc = w /\ nxt = r
 FullEmptyReachable == TRUE
